@@ -5,7 +5,9 @@ import (
 	"fmt"
 	"math/rand"
 	"os"
+	"os/exec"
 	"sync"
+	"sync/atomic"
 	"time"
 
 	ds "github.com/sealdice/dicescript"
@@ -47,8 +49,20 @@ func c11VM(lang string, seeded bool, seed uint64, flags int) *ds.Context {
 	vm.Config.EnableDiceCoC, vm.Config.EnableDiceWoD, vm.Config.EnableDiceFate, vm.Config.EnableDiceDoubleCross = flags&1 != 0, flags&2 != 0, flags&4 != 0, flags&8 != 0
 	vm.Config.ParseErrorLanguage = c11LangOf[lang]
 	vm.Config.OpCountLimit = 30000
+	// further settings that change how a text compiles or evaluates (bits 4..8 of flags)
+	vm.Config.DisableBitwiseOp = flags&16 != 0
+	vm.Config.DefaultDiceSideExpr = c11DefExprs[(flags>>5)&3]
+	vm.Config.IgnoreDiv0 = flags&128 != 0
+	vm.Config.DisableNDice = flags&256 != 0
 	return vm
 }
+
+var c11DefExprs = []string{"", "20", "6 | 9", "d4 + 2"}
+
+// programs whose meaning depends on those settings: dice without sides (the default-sides expression is compiled lazily,
+// under the VM's own flags, on first use), inside and outside function bodies and computed values
+var c11CfgProgs = []string{"d", "2d + 1", "func fd() { d }; fd() + fd()", "&cd = 2d; cd + cd", "d + d", "`{d}`", "3d k1", "5 | 2", "6 & 3", "1/0 + 1", "3d6", "[d, d].sum()"}
+
 
 // programs: syntax errors of every message kind (their text depends on the language), runtime errors, values with dice
 var c11ErrProgs = []string{"1 + (2 * ", "", "[1, 2", "{'a': 1", "'abc", "1 +", "@@", ")", "`a{1", "x = ", "2d6 + * 3", "f(1,", "1 ? 2 :", "力量 + (", "1 +\n  (2 *\n"}
@@ -62,6 +76,14 @@ var c11SharedProgs = []string{"[3,1,2].kh(2)", "[3,1,2].kl()", "[1,2,3].sum() + 
 
 var c11ValProgs = []string{"2d6 + 3d10 + 1", "x = 5d20k2; x * 2", "func f(n) { n + 2d4 }; f(1) + f(2)", "[1,2,3,4,5].rand() + 1d8", "`r={3d6}`", "&c = 2d6; c + c", "4d6kh3 - 1d100 / 7",
 	"a = [1,2,3]; a.shuffle(); a.sum() + 1d4", "i = 0; s = 0; while i < 5 { s = s + 1d6; i = i + 1 }; s", "1/0", "null + 1", "[1,2][5]"}
+
+type c11Job struct {
+	Lang   string `json:"lang"`
+	Seeded bool   `json:"seeded"`
+	Seed   uint64 `json:"seed"`
+	Flags  int    `json:"flags"`
+	Src    string `json:"src"`
+}
 
 func init() {
 	// replay of the schedules of spec/Shared.tla: goroutines are parked at the gates and released in the given order
@@ -189,13 +211,30 @@ func init() {
 	}
 
 	// free-running goroutines (built with -race by the check): every goroutine owns its VMs, nothing is shared
+	// one evaluation in a process of its own
+	subcmds["c11-one"] = func(args []string) int {
+		fs := newFlags("c11-one")
+		job := fs.String("job", "", "json")
+		fs.Parse(args)
+		var j c11Job
+		if err := json.Unmarshal([]byte(*job), &j); err != nil {
+			fatal("c11-one: %v", err)
+		}
+		b, _ := json.Marshal(c11Run(c11VM(j.Lang, j.Seeded, j.Seed, j.Flags), j.Src))
+		fmt.Println(string(b))
+		return 0
+	}
 	subcmds["c11-free"] = func(args []string) int {
 		fs := newFlags("c11-free")
 		out := fs.String("out", "", "events ndjson")
 		gor := fs.Int("goroutines", 8, "goroutines")
 		rounds := fs.Int("rounds", 200, "programs per goroutine")
 		gen := fs.String("gen", "", "generated programs ndjson {src}")
+		isoexe := fs.String("isoexe", "", "harness binary (built without the race detector) that computes the isolated references, one fresh process per evaluation")
 		fs.Parse(args)
+		if *isoexe == "" {
+			*isoexe = os.Args[0]
+		}
 		var pool []string
 		pool = append(pool, c11ErrProgs...)
 		pool = append(pool, c11ValProgs...)
@@ -230,16 +269,17 @@ func init() {
 				if k%2 == 0 { // every second evaluation uses the objects VMs could share
 					src = c11SharedProgs[r.Intn(len(c11SharedProgs))]
 				}
-				jobs[g] = append(jobs[g], job{langs[(g+k/7)%3], (g+k)%3 != 0, uint64(r.Int63()), r.Intn(16), src})
+				flags := r.Intn(16)
+				if k%4 == 1 { // and every fourth one a program that depends on the further settings, which are drawn for it
+					src = c11CfgProgs[r.Intn(len(c11CfgProgs))]
+					flags = r.Intn(512)
+				}
+				jobs[g] = append(jobs[g], job{langs[(g+k/7)%3], (g+k)%3 != 0, uint64(r.Int63()), flags, src})
 			}
 		}
-		// isolated runs first, single goroutine
-		iso := make([][]c11Out, *gor)
-		for g := range jobs {
-			for _, j := range jobs[g] {
-				iso[g] = append(iso[g], c11Run(c11VM(j.lang, j.seeded, j.seed, j.flags), j.src))
-			}
-		}
+		// The concurrent runs come FIRST, in a process in which nothing has been evaluated yet: lazily initialised state is
+		// then first touched concurrently.  The references are computed afterwards, each in a process of its own: "in
+		// isolation" means that no other VM exists, before or beside this one.
 		conc := make([][]c11Out, *gor)
 		var wg sync.WaitGroup
 		start := make(chan struct{})
@@ -255,12 +295,38 @@ func init() {
 		}
 		close(start)
 		wg.Wait()
+		iso := make([][]c11Out, *gor)
+		for g := range jobs {
+			iso[g] = make([]c11Out, len(jobs[g]))
+		}
+		sem := make(chan struct{}, 12)
+		var failed atomic.Int64
+		for g := range jobs {
+			for k, j := range jobs[g] {
+				wg.Add(1)
+				sem <- struct{}{}
+				go func(g, k int, j job) {
+					defer wg.Done()
+					defer func() { <-sem }()
+					jb, _ := json.Marshal(c11Job{j.lang, j.seeded, j.seed, j.flags, j.src})
+					cmd := exec.Command(*isoexe, "c11-one", "-job", string(jb))
+					outb, err := cmd.Output()
+					if err != nil || json.Unmarshal(outb, &iso[g][k]) != nil {
+						failed.Add(1)
+					}
+				}(g, k, j)
+			}
+		}
+		wg.Wait()
+		if failed.Load() > 0 {
+			fatal("c11-free: %d isolated reference processes failed", failed.Load())
+		}
 		w := newNDWriter(*out)
 		defer w.Close()
 		n := 0
 		for g := range jobs {
 			for k, j := range jobs[g] {
-				w.Write(map[string]any{"ev": "c11f", "goroutine": g, "lang": j.lang, "seeded": j.seeded, "src": j.src, "iso": iso[g][k], "conc": conc[g][k]})
+				w.Write(map[string]any{"ev": "c11f", "goroutine": g, "lang": j.lang, "seeded": j.seeded, "flags": j.flags, "src": j.src, "iso": iso[g][k], "conc": conc[g][k]})
 				n++
 			}
 		}
